@@ -269,10 +269,6 @@ def _fire(cfg, w, seed, history, ev, tracks, pre: StatePre, confirm):
             d = np.argwhere(exp != tracks.segmentation)
             add("C07", "not-as-painted", f"array differs from the painted array at {[tuple(int(v) for v in i) for i in d[:5]]}", "apply", tag)
     res["key"] = canon.state_key(tracks)
-    if "C02" in props:
-        h = tracks.action_history
-        if len(h.undo_stack) != len(history) + 1 or h.redo_stack:
-            add("C02", "steps-per-action", f"undo stack has {len(h.undo_stack)} entries after {len(history) + 1} top-level actions", "apply", tag)
     if cfg.undo_probe:
         _undo_probe(cfg, tracks, pre, add, tag, ev, set(post_bad), confirm)
     return res
